@@ -11,7 +11,7 @@ import (
 const ruleG = "Engine G: abstract programs (random typed flow DAGs / Parallel mixes; spellings: literals, top-level functions, method values, local function variables, instantiated generics; " +
 	"value types: named ints, structs, pointers, slices, maps, generic instantiations, named slices, unnamed basic types; optional predicates, fallbacks, Invoke, instrumentation; random option and listing orders; " +
 	"optionally inside a generic function or a method) are printed as cff-tagged packages, compiled by the cff binary built from /repo's working tree, linked into one runner and executed under generated scenarios " +
-	"(outcomes per function, delays, seeded perturbation profiles at the scheduler's verif hook points, concurrency in {default,1,2,3,4,8,64}, collection sizes nil/0/1/2/3/7/16/64/1000; where failures matter also the systematic matrix: one Parallel per signature variant of Task/Tasks/Slice/Map functions and End hooks (68 programs), with 'one' scenarios in which exactly one function - each in turn, by error and by panic, first/last/middle element - fails). Every stub call is logged with its argument tokens (provenance hashes) and stamps from one atomic clock; " +
+	"(outcomes per function, delays, seeded perturbation profiles at the scheduler's verif hook points, 'nest' scenarios in which a function runs another program's directive - succeeding, failing or panicking on its own - inside its body, concurrency in {default,1,2,3,4,8,64}, collection sizes nil/0/1/2/3/7/16/64/1000; where failures matter also the systematic matrix: one Parallel per signature variant of Task/Tasks/Slice/Map functions and End hooks (68 programs), with 'one' scenarios in which exactly one function - each in turn, by error and by panic, first/last/middle element - fails). Every stub call is logged with its argument tokens (provenance hashes) and stamps from one atomic clock; " +
 	"a reference interpreter written from the property statements decides. distinct = distinct (program, scenario shape); non-trivial for this property: "
 
 var assumeG = []string{
